@@ -505,6 +505,21 @@ func reqMsgIDOf(msg messages.Common) int {
 // если в процессе решения появлиась еще одна ошибка, то она оборачивается в errors.Wrap, основная
 // игнорируется (потому что гарантируется, что обработка ошибки надежна, и параллельная ошибка это что-то из
 // ряда вон выходящее)
+// repeatPendingRequests tells every caller which is still waiting for an answer on the connection we have just
+// left to send its request again: new DC knows nothing about requests which were sent to the old one, so these
+// callers would wait for ever. callers are woken up the same way as after bad_server_salt.
+func (m *MTProto) repeatPendingRequests() {
+	for _, msgID := range m.responseChannels.Keys() {
+		resp, ok := m.responseChannels.Get(msgID)
+		if !ok {
+			continue
+		}
+		m.responseChannels.Delete(msgID)
+		m.expectedTypes.Delete(msgID)
+		go func() { resp <- &errorSessionConfigsChanged{} }() // goroutine cuz caller could be not reading RIGHT NOW
+	}
+}
+
 func (m *MTProto) tryToProcessErr(e *ErrResponseCode) error {
 	return m.tryToProcessErrOf(e, m.addr)
 }
@@ -534,6 +549,9 @@ func (m *MTProto) tryToProcessErrOf(e *ErrResponseCode, sentTo string) error {
 
 		m.addr = newIP
 		err := m.Reconnect()
+		if err == nil {
+			m.repeatPendingRequests()
+		}
 		return err
 
 	default:
